@@ -55,6 +55,7 @@ class VProc:
         self.alive = True
         self.idle = 0             # consecutive sleeps without another boundary operation
         self.nops = 0             # boundary operations answered so far
+        self.nsteps = 0           # scheduling steps (parked operations answered) so far
         self.last_sub_before = ""
         self.deferred = []        # events announced by the process that take effect with its next visible operation
         self.buf = b""
@@ -415,6 +416,7 @@ class World:
             if not p.alive:
                 raise HarnessError(f"step of dead process {move}")
             self._flush(p)
+            p.nsteps += 1
             self._answer(p)
             if p.alive:
                 self._next_request(p)
@@ -647,7 +649,8 @@ class World:
         at = p.req["op"] + ":" + os.path.basename(p.req.get("path") or "") + \
             (os.path.basename(p.req["argv"][0]) if p.req.get("argv") else "")
         p.reap(kill=True)
-        self.ev(e="kill", pid=p.pid, k=p.label, host=p.host, at=at, why=why, nops=p.nops, b=self._bnum(p.batch))
+        self.ev(e="kill", pid=p.pid, k=p.label, host=p.host, at=at, why=why, nops=p.nops, nsteps=p.nsteps, b=self._bnum(p.batch),
+                holder=bool(p.label != "run-jobs" and self._is_holder(p)))
         for hd in self.handles.values():
             if hd.get("owner") == p.pid and hd["state"] == "running":
                 hd["state"] = "dead"
@@ -658,6 +661,10 @@ class World:
         for q in self.procs:
             if q.alive and q.parent is not None and self.handles[q.parent].get("owner") == p.pid:
                 self.kill_proc(q, why="parent died")
+
+    def _is_holder(self, p):
+        st = self.last_status.get(self.out) or {}
+        return st.get("sub") == p.host
 
     def kill_node(self, hid, how="kill"):
         """The node of a running batch disappears (killed, timed out or scancel'ed)."""
